@@ -54,6 +54,9 @@ use cascette_crypto::{ContentKey, EncodingKey};
 use std::collections::HashMap;
 use std::io::Cursor;
 
+/// Largest file size the 40-bit `file_size` field of a page entry holds
+const MAX_FILE_SIZE: u64 = (1 << 40) - 1;
+
 /// Entry data for building `CKey` pages
 #[derive(Debug, Clone)]
 pub struct CKeyEntryData {
@@ -157,8 +160,27 @@ impl EncodingBuilder {
         sorted_entries.sort_by_key(|entry| entry.content_key.as_bytes());
 
         for entry_data in sorted_entries {
+            // key_count is one byte on the wire and 0 marks the page padding: an entry
+            // holds 1..=255 encoding keys
+            let key_count = u8::try_from(entry_data.encoding_keys.len())
+                .ok()
+                .filter(|count| *count > 0)
+                .ok_or(EncodingError::InvalidKeyCount(
+                    entry_data.encoding_keys.len(),
+                ))?;
+
+            // file_size is 40 bits on the wire
+            if entry_data.file_size > MAX_FILE_SIZE {
+                return Err(EncodingError::InvalidFileSize(entry_data.file_size));
+            }
+
             // Calculate entry size: 1 (key_count) + 5 (file_size) + 16 (content_key) + 16 * key_count (encoding_keys)
             let entry_size = 1 + 5 + 16 + (16 * entry_data.encoding_keys.len());
+
+            // An entry never spans pages: one that is larger than a page cannot be stored
+            if entry_size > page_size {
+                return Err(EncodingError::InvalidPageSize(page_size));
+            }
 
             // Check if adding this entry would exceed page size
             if current_page_size + entry_size > page_size && !current_page_entries.is_empty() {
@@ -175,8 +197,7 @@ impl EncodingBuilder {
 
             // Convert to page entry
             let page_entry = CKeyPageEntry {
-                #[allow(clippy::cast_possible_truncation)]
-                key_count: entry_data.encoding_keys.len() as u8,
+                key_count,
                 file_size: entry_data.file_size,
                 content_key: entry_data.content_key,
                 encoding_keys: entry_data.encoding_keys.clone(),
@@ -220,6 +241,11 @@ impl EncodingBuilder {
         sorted_entries.sort_by_key(|entry| entry.encoding_key.as_bytes());
 
         for entry_data in sorted_entries {
+            // file_size is 40 bits on the wire
+            if entry_data.file_size > MAX_FILE_SIZE {
+                return Err(EncodingError::InvalidFileSize(entry_data.file_size));
+            }
+
             // Calculate entry size: 16 (encoding_key) + 4 (espec_index) + 5 (file_size)
             let entry_size = 16 + 4 + 5;
 
